@@ -29,7 +29,7 @@ CLAIMED = {
             "DESIGN.md §4 C18"),
     "C03": ("TLA+ spec Lazy (memo-cell protocol with explicit evaluation stack) model-checked by TLC; every (dependency graph, "
             "demand sequence) replayed on real thunks, object fields, array elements and locals; hook-event traces of real "
-            "evaluations validated against Trace_Lazy",
+            "evaluations validated against Trace_Lazy; chains of Objects.tla replayed with an error planted in every member definition outside the model's Used set (the definitions a field read evaluates)",
             "TLC checks AtMostOnce, PendingIffRunning, QuiescentClean, StoredOutcome, OnlyNeeded, Stable over all graphs of <=3 cells "
             "incl. cycles x all demand orders; each behaviour is replayed on four kinds of real memo cells comparing outcome and "
             "bodies run per demand; memoisation events emitted by the evaluator hooks must form a behaviour of the protocol; "
@@ -71,7 +71,7 @@ CLAIMED = {
             "DESIGN.md §4 C02"),
     "C01": ("TLA+ spec Core (executable big-step semantics of the core language, written from the Jsonnet specification) "
             "evaluated by TLC on bounded program families; every program replayed on the implementation under up to 10 "
-            "configurations (2 parsers, 2 printings, snippet/import/ext-code/TLA body)",
+            "configurations (2 parsers, 2 printings, snippet/import/ext-code/TLA body); inheritance chains of Objects.tla (plus, refs, omit, locals with shared layers) judged by the object model on both parsers",
             "TLC evaluates Run(p) for every program of the families (operators x typed pool incl. all ill-typed pairs, signatures x "
             "call shapes with the positional=named invariant, expression grammar of depth <=2, object programs, indexing/slicing, "
             "precedence nestings, hand-written scope/recursion/laziness programs); the implementation must give the same JSON "
@@ -83,7 +83,7 @@ CLAIMED = {
             "DESIGN.md §4 C01"),
     "C06": ("TLA+ specs Grammar (parser for the Jsonnet expression grammar) and Lexical (literal decoding) evaluated by TLC "
             "on ALL token / piece sequences up to a length bound; each text parsed by the ir, peg and rowan parsers and "
-            "compared with the specification's tree",
+            "compared with the specification's tree; the comment / blank family of Lexical decides every text over `/ * 1 a space newline #` of up to 6 (thorough 7) characters",
             "TLC enumerates every token sequence of length <=4 (thorough <=5) over six family alphabets, every pair of operators in "
             "both nestings, and every literal built from <=3 escape/character pieces, number texts of <=5 pieces and text blocks "
             "of <=3 lines; both evaluator parsers must accept exactly the texts the grammar accepts and build exactly its tree "
@@ -104,7 +104,7 @@ CLAIMED = {
             "count, key with positional values) are undecided and only required not to crash",
             "DESIGN.md §4 C12"),
     "C10": ("TLA+ spec StdArrays (one operator per function from the stdlib documentation / std.jsonnet) evaluated by TLC on "
-            "enumerated calls with model-level laws; every call replayed through Jsonnet",
+            "enumerated calls with model-level laws; every call replayed through Jsonnet; std.slice judged by the slice denotation of Arrays.tla",
             "TLC evaluates Call(c) for every call over arrays of length 0..3 (thorough 0..4) over a 9-value alphabet and a pool of "
             "total, partial and type-changing user functions, and checks that Sort yields the stable ordered permutation and the "
             "set laws; the implementation must return the same value or fail exactly when the definition fails, with and "
@@ -114,7 +114,7 @@ CLAIMED = {
             "DESIGN.md §4 C10"),
     "C11": ("TLA+ spec StdStrings (string functions over code-point sequences, number parsers, UTF-8 and base64 codecs, "
             "parseJson = the RFC 8259 Reader) evaluated by TLC on enumerated calls with codec-inverse and split/join laws; every "
-            "call replayed through Jsonnet; digests trace-validated against python hashlib",
+            "call replayed through Jsonnet; digests trace-validated against python hashlib; parseYaml on JSON texts judged by the JSON Reader",
             "TLC evaluates Call(c) for every call over strings of length 0..3/4 (thorough +1) mixing ASCII, 2-byte and astral code "
             "points, overlapping patterns, offsets beyond the length, invalid UTF-8 byte arrays and malformed base64/digit strings, "
             "and checks Decode(Encode(x)) = x and Join(Split(s)) = s; the implementation must return the same value or fail "
@@ -134,7 +134,7 @@ CLAIMED = {
             "DESIGN.md §4 C13"),
     "C09": ("TLA+ spec Numbers (order on ranks with trichotomy/derived-operator laws; 64-bit two's-complement bit vectors for "
             "& | ^ << >> with safe-range and overflow tests) model-checked by TLC and replayed on boundary doubles; "
-            "arithmetic/math-function executions trace-validated against Trace_Numbers with an IEEE/libm oracle",
+            "arithmetic/math-function executions trace-validated against Trace_Numbers with an IEEE/libm oracle; round, sign, exponent, mantissa, deg2rad, rad2deg, mod in the oracle trace",
             "TLC enumerates all pairs and structured triples of ranks of a boundary-dense sorted list of doubles (zeros, subnormals, "
             "one-ulp neighbours, +-2^53 and neighbours, +-max) and all bit-vector operand pairs; every comparison operator, "
             "std.equals/primitiveEquals/__compare, sort, set, uniq, setMember, min/max(Array) and every bitwise operator must agree "
@@ -192,7 +192,7 @@ CLAIMED = {
             "DESIGN.md section C20"),
     "C15": ("TLA+ spec Cli (Translate/Outcome/Render of a configuration, pipeline machine with EnteredWhileEvaluating, Deps over import "
             "graphs, native/import callback outcomes) model-checked by TLC; every enumerated configuration replayed on the jrsonnet "
-            "executable, the library API (harness plumbing) and libjsonnet.so (ctypes, separate process); import graphs replayed on jrsonnet-deps",
+            "executable, the library API (harness plumbing) and libjsonnet.so (ctypes, separate process); import graphs replayed on jrsonnet-deps; dependency graphs over two directories (family deps2: one import text naming different files)",
             "TLC enumerates 52k configurations (ext x tla flavour/payload incl. values taken from the environment, search path, input mode, 13 output modes, stack limit), 9k "
             "import graphs and 53 callback cases and checks the pipeline invariant; all single-variable configurations plus a seeded sample of "
             "the product are run: the library must compute the value the model denotes (or fail where it denotes an error), the "
@@ -213,7 +213,7 @@ CLAIMED = {
             "DESIGN.md section C14"),
     "C04": ("TLA+ specs Total (per-thread outcome protocol and histories), Stack (frame counter) and StdSig (boundary "
             "tuples) model-checked by TLC; source texts, every std function x boundary tuples, recursion sweeps and TLC-enumerated "
-            "failure histories executed on the implementation and trace-validated against Trace_Total",
+            "failure histories executed on the implementation and trace-validated against Trace_Total; every literal of the lexical families as source text, structured values in every argument position of every std function",
             "TLC checks Bounded/Balanced of the frame counter and IdleClean of the thread protocol and enumerates token sequences, "
             "argument tuples and all histories of 3 outcome classes; every execution is an event that must be val or err (no crash "
             "action exists) with frame counter, assertion markers and entered state restored; recursion must succeed when "
